@@ -179,6 +179,9 @@ def Response.construct (id : Option ReqId) (result : MaybeSet Json) (error : May
 
 def Response.isError (r : Response) : Bool := r.error.isSet
 
+/-- A response the library can construct: exactly one of result / error. -/
+def Response.WF (r : Response) : Prop := r.result.isSet ≠ r.error.isSet
+
 /-- v20.py:256-272 `Response.to_json`. -/
 def Response.toJson (r : Response) : Json :=
   .obj ([("jsonrpc", .str "2.0"), ("id", optIdToJson r.id)] ++
